@@ -65,6 +65,7 @@ WS = z3.Union(z3.Re(" "), z3.Re("\t"), z3.Re("\n"), z3.Re("\r"), z3.Re("\x0b"), 
 
 
 UTF8_DECODE = z3.Function("utf8_decode", z3.StringSort(), z3.StringSort())
+UTF8_ENCODE = z3.Function("utf8_encode", z3.StringSort(), z3.StringSort())
 
 
 def decode(I, s, enc="utf-8"):
@@ -98,6 +99,12 @@ def encode(I, s, enc="utf-8"):
         return SStr(s.term, True)
     if enc in ("ascii", "us-ascii"):
         raise PyRaise(UnicodeEncodeError("ascii", "", 0, 1, "ordinal not in range(128)"), UnicodeEncodeError)
+    if enc.lower().replace("_", "-") in ("utf-8", "utf8"):
+        if I.path.choose(2) == 1:      # lone surrogates cannot be encoded
+            raise PyRaise(UnicodeEncodeError("utf-8", "", 0, 1, "surrogates not allowed"), UnicodeEncodeError)
+        r = UTF8_ENCODE(s.term)
+        I.path.fact(z3.Not(z3.InRe(r, z3.Star(z3.Range("\x00", "\x7f")))), "utf-8 encoding of a non-ASCII string is not ASCII")
+        return SStr(r, True)
     raise Undecided("encode of non-ASCII str")
 
 
